@@ -838,4 +838,52 @@ theorem heal_no_merge (st : State) (bl : List Bool) : ∀ o ∈ (heal st bl).2, 
     obtain ⟨b, _, rfl⟩ := ho
     rfl
 
+/-! ### the github_changed flag -/
+
+theorem startBuild_gflag (st : State) (p : PR) (ok : Bool) : (startBuild st p ok).1.githubChanged = st.githubChanged := by
+  unfold startBuild; cases ok <;> simp
+
+theorem healPR_gflag (st : State) (p : PR) (d : Bool) (bl : List Bool) : (healPR st p d bl).1.githubChanged = st.githubChanged := by
+  unfold healPR
+  cases st.sha with
+  | none => rfl
+  | some t =>
+    simp only
+    split
+    · simp only [startBuild_gflag]
+    · rfl
+
+theorem healAll_gflag (order : List Nat) (cand : Option Nat) :
+    ∀ (st : State) (bl : List Bool), (healAll st order cand bl).1.githubChanged = st.githubChanged := by
+  induction order with
+  | nil => intro st bl; rfl
+  | cons n rest ih =>
+    intro st bl
+    unfold healAll
+    cases findPR n st.prs with
+    | none => exact ih st bl
+    | some p => simp only; rw [ih, healPR_gflag]
+
+theorem heal_gflag (st : State) (bl : List Bool) : (heal st bl).1.githubChanged = st.githubChanged := by
+  unfold heal
+  simp only
+  show (cancelOrphans _).1.githubChanged = _
+  unfold cancelOrphans
+  simp only
+  rw [healAll_gflag]
+  rfl
+
+theorem tryMerge_gflag (st : State) (order : List PR) (merges : List Bool) (h : st.githubChanged = true) :
+    (tryMerge st order merges).1.githubChanged = true := by
+  induction order generalizing merges with
+  | nil => simpa [tryMerge] using h
+  | cons p rest ih =>
+    unfold tryMerge
+    split
+    · exact h
+    · exact ih merges
+    · cases merges with
+      | nil => simp
+      | cons b bs => cases b <;> simp [ih]
+
 end HailVerif.CI
